@@ -63,7 +63,11 @@ def recover(packfn, unpackfn, N, K, nb):
     for r in range(rows):
         for c in range(cols):
             for i in range(nb):
-                dest[int(fields[r, c, i])] = [r, c, i]
+                src = int(fields[r, c, i])
+                if 0 <= src < N * K:
+                    dest[src] = [r, c, i]
+    # a source position stored nowhere (the packer is not injective): outside every field, so the bijection clause rejects it
+    dest = [d if d is not None else [-1, -1, -1] for d in dest]
     return dest, rt, [rows, cols]
 
 
